@@ -98,6 +98,33 @@ func (x *instr) point(pos string) ast.Stmt {
 	}}
 }
 
+func (x *instr) after(pos string) ast.Stmt {
+	x.used = true
+	return &ast.ExprStmt{X: &ast.CallExpr{
+		Fun:  &ast.SelectorExpr{X: ast.NewIdent("verifrt"), Sel: ast.NewIdent("After")},
+		Args: []ast.Expr{&ast.BasicLit{Kind: token.STRING, Value: fmt.Sprintf("%q", pos)}},
+	}}
+}
+
+// chanOps lists the positions of channel operations in a statement header.
+func (x *instr) chanOps(n ast.Node) (ops []string) {
+	if n == nil {
+		return
+	}
+	ast.Inspect(n, func(m ast.Node) bool {
+		switch e := m.(type) {
+		case *ast.FuncLit, *ast.BlockStmt:
+			return false
+		case *ast.UnaryExpr:
+			if e.Op == token.ARROW {
+				ops = append(ops, x.posStr(e.OpPos))
+			}
+		}
+		return true
+	})
+	return
+}
+
 func (x *instr) block(b *ast.BlockStmt) {
 	if b == nil {
 		return
@@ -124,7 +151,7 @@ func (x *instr) funcLits(n ast.Node) {
 func (x *instr) stmts(list []ast.Stmt) []ast.Stmt {
 	var out []ast.Stmt
 	for _, s := range list {
-		var pre, post []string
+		var pre, post, afters []string
 		var lbl *ast.LabeledStmt
 		if l, ok := s.(*ast.LabeledStmt); ok {
 			lbl = l
@@ -161,6 +188,9 @@ func (x *instr) stmts(list []ast.Stmt) []ast.Stmt {
 				}
 			}
 			x.block(st.Body)
+			if len(pre) > 0 && st.Body != nil {
+				st.Body.List = append([]ast.Stmt{x.after(pre[0])}, st.Body.List...)
+			}
 		case *ast.SwitchStmt:
 			p1, _ := x.syncOps(st.Init)
 			p2, _ := x.syncOps(st.Tag)
@@ -182,12 +212,13 @@ func (x *instr) stmts(list []ast.Stmt) []ast.Stmt {
 			pre = append(pre, x.posStr(st.Select))
 			for _, c := range st.Body.List {
 				cc := c.(*ast.CommClause)
-				cc.Body = x.stmts(cc.Body)
+				cc.Body = append([]ast.Stmt{x.after(x.posStr(st.Select))}, x.stmts(cc.Body)...)
 			}
 		case *ast.SendStmt:
 			pre = append(pre, x.posStr(st.Arrow))
 			p1, _ := x.syncOps(st.Value)
 			pre = append(pre, p1...)
+			afters = append(afters, x.posStr(st.Arrow))
 		case *ast.GoStmt:
 			// go f(args) -> verifrt.GoAt(pos, func() { f(args) }) with the arguments evaluated now
 			x.funcLits(st.Call)
@@ -234,6 +265,7 @@ func (x *instr) stmts(list []ast.Stmt) []ast.Stmt {
 			}
 		default:
 			pre, post = x.syncOps(s)
+			afters = append(afters, x.chanOps(s)...)
 			x.funcLits(s)
 		}
 		var group []ast.Stmt
@@ -258,6 +290,9 @@ func (x *instr) stmts(list []ast.Stmt) []ast.Stmt {
 		switch s.(type) {
 		case *ast.ReturnStmt, *ast.BranchStmt:
 		default:
+			for _, p := range afters {
+				group = append(group, x.after(p))
+			}
 			for _, p := range post {
 				group = append(group, x.point(p))
 			}
